@@ -9,6 +9,7 @@ import (
 	"fmt"
 	"os"
 	"os/exec"
+	"regexp"
 	"runtime"
 	"strings"
 	"sync"
@@ -34,16 +35,23 @@ func init() {
 type c20IO struct {
 	mu    sync.Mutex
 	buf   bytes.Buffer
-	exits map[int][]int // by scheduler thread (or -1)
+	exits map[int][]int         // by scheduler thread (or -1)
+	perT  map[int]*bytes.Buffer // under the scheduler: what each thread wrote
 }
 
 func (w *c20IO) Write(p []byte) (int, error) {
 	w.mu.Lock()
 	defer w.mu.Unlock()
+	if t := vsched.Current(); t >= 0 {
+		if w.perT[t] == nil {
+			w.perT[t] = &bytes.Buffer{}
+		}
+		w.perT[t].Write(p)
+	}
 	return w.buf.Write(p)
 }
 
-var c20io = &c20IO{exits: map[int][]int{}}
+var c20io = &c20IO{exits: map[int][]int{}, perT: map[int]*bytes.Buffer{}}
 
 func c20Install() {
 	cli.VerifSetIO(c20io, c20io, func(code int) {
@@ -174,6 +182,22 @@ var templates = []*template{
 		a := app.IntArg("A", 0, "")
 		return outcome(app, []string{"t8", "-n", "1", "-n=2", "42"}, func() string { return fmt.Sprintf("n=%v f=%v A=%d sbu=%v,%v", *n, *f, *a, s1, s2) })
 	}},
+	{name: "T9 rejected: two int options both given unconvertible values, plus an argument", run: func() string {
+		app := cli.App("t9", "")
+		app.ErrorHandling = flag.ContinueOnError
+		p := app.IntOpt("p port", 80, "")
+		q := app.IntOpt("q queue", 5, "")
+		x := app.StringArg("X", "", "")
+		return outcome(app, []string{"t9", "-p", "http", "-q", "many", "val"}, func() string { return fmt.Sprintf("p=%d q=%d X=%q", *p, *q, *x) })
+	}},
+	{name: "T10 rejected: int arguments, the first unconvertible, with a collected option", run: func() string {
+		app := cli.App("t10", "")
+		app.ErrorHandling = flag.ContinueOnError
+		app.Spec = "[-v] N..."
+		v := app.BoolOpt("v verbose", false, "")
+		n := app.IntsArg("N", nil, "")
+		return outcome(app, []string{"t10", "-v", "zz", "2", "yy"}, func() string { return fmt.Sprintf("v=%v N=%v", *v, *n) })
+	}},
 }
 
 // runTemplate sets the template's environment, builds and runs it in its own goroutine (an Exit ends it),
@@ -204,8 +228,14 @@ func runTemplate(t *template) (string, string, []int) {
 	return out, c20io.buf.String(), append([]int{}, c20io.exits[-1]...)
 }
 
+// when two containers hold unconvertible values, which of them is reported depends on Go's map iteration
+// order; the token named in a conversion error is therefore masked in every outcome
+var convTok = regexp.MustCompile(`parsing \\?"[^"\\]*\\?"`)
+
+func maskConv(s string) string { return convTok.ReplaceAllString(s, `parsing "<token>"`) }
+
 func describeRun(out, stderr string, exits []int) string {
-	return fmt.Sprintf("%s | exits=%v | stderr=%q", out, exits, stderr)
+	return maskConv(fmt.Sprintf("%s | exits=%v | stderr=%q", out, exits, stderr))
 }
 
 func runIndep(c *Ctx) {
@@ -287,6 +317,9 @@ func runHistories(c *Ctx) {
 		}
 	}
 	maxLen := 3
+	if !c.Thorough() && len(templates) > 9 {
+		maxLen = 3
+	}
 	idx := 0
 	var hist []int
 	var rec func()
